@@ -179,6 +179,12 @@ func (core *JApiCore) setCurrentDirective(keyword string, keywordCoords directiv
 		return core.japiError(fmt.Sprintf("%s %q", jerr.UnknownDirective, keyword), keywordCoords.Begin())
 	}
 
+	// A banned directive is refused wherever it is written, including the places which
+	// never reach the catalog: MACRO, PASTE and the body of a macro that is not pasted.
+	if _, ok := core.bannedDirectives[de]; ok {
+		return core.japiError(fmt.Sprintf("%s (%s)", jerr.DirectiveNotAllowed, de.String()), keywordCoords.Begin())
+	}
+
 	d := directive.NewWithCallStack(de, keywordCoords, core.scannersStack.ToDirectiveIncludeTracer())
 	d.Keyword = keyword
 
